@@ -178,10 +178,17 @@ def runSem (j : Json) : Json :=
       let ranked := c.circ.checkRanked rank
       let failing := (List.range core.nodes.size).filter (fun n => !checkNode c.circ core.nodes bindF n)
       let nBound := (bindArr.toList.filter Option.isSome).length
-      let matchJson := Json.mkObj [("ranked", Json.bool ranked), ("all", Json.bool failing.isEmpty),
+      let matchJson := Json.mkObj <| [("ranked", Json.bool ranked), ("all", Json.bool failing.isEmpty),
         ("failing_nodes", Json.arr (failing.map (fun n => Json.mkObj [("node", toJson n),
             ("kind", Json.str ((toString (repr (core.nodes.getD n (.const "" 0)))).take 60).toString)])).toArray),
-        ("bound", nBound), ("roots", roots.length), ("nodes", core.nodes.size)]
+        ("bound", nBound), ("roots", roots.length), ("nodes", core.nodes.size)] ++
+        (if (jgetD j "dump").getBool?.toOption.getD false then
+          [("dump", Json.mkObj [
+            ("kinds", Json.arr (c.circ.kinds.map (fun k => Json.str (toString (repr k))))),
+            ("prodR", Json.str (toString (repr c.circ.prodR))), ("prodG", Json.str (toString (repr c.circ.prodG))),
+            ("nodes", Json.arr (core.nodes.map (fun k => Json.str (toString (repr k))))),
+            ("bind", Json.arr (bindArr.map (fun k => Json.str (toString (repr k)))))])]
+         else [])
       let outputsJson := Json.arr (core.named.toList.filterMap (fun nm =>
         if nm.topLevel && !core.consumed.contains nm.name then
           some (Json.mkObj [("name", nm.name), ("line", nm.line), ("bundle", Json.bool nm.isBundle),
